@@ -324,3 +324,21 @@ Proof.
   destruct (m_step s o) as [s' x]. destruct (r_step (abs s) o) as [q' y]. simpl in *.
   subst. f_equal. apply IH. exact A.
 Qed.
+
+(* ---- boolean equality of results ---- *)
+Lemma pairs_eqb_spec a : forall b, pairs_eqb a b = true <-> a = b.
+Proof.
+  induction a as [|[k v] a IH]; intros [|[k' v'] b]; simpl; split; intros H; try discriminate; try reflexivity.
+  - apply andb_true_iff in H. destruct H as [H H3]. apply andb_true_iff in H. destruct H as [H1 H2].
+    apply N.eqb_eq in H1, H2. apply IH in H3. subst. reflexivity.
+  - inversion H; subst. rewrite !N.eqb_refl. simpl. apply IH. reflexivity.
+Qed.
+
+Lemma res_eqb_spec a b : res_eqb a b = true <-> a = b.
+Proof.
+  destruct a, b; simpl; split; intros H; try discriminate; try reflexivity.
+  - apply N.eqb_eq in H. subst. reflexivity.
+  - inversion H. apply N.eqb_refl.
+  - apply pairs_eqb_spec in H. subst. reflexivity.
+  - inversion H. apply pairs_eqb_spec. reflexivity.
+Qed.
